@@ -443,6 +443,9 @@ func VerifWorkerMain() error {
 		}
 	} else {
 		for _, s := range VerifScenarios() {
+			if s.CutOnly && os.Getenv("VERIF_MONS") != "" {
+				continue // not a start state for the behavioural monitors (see VScenario.CutOnly)
+			}
 			all = append(all, VWork{Scenario: s.Name})
 		}
 	}
